@@ -1323,7 +1323,9 @@ class Context:
                             f"\nFirst run st.make({run_id}, {target_i}) to make {target_i}."
                         )
                     raise strax.DataNotAvailable(error_message)
-                if "*" in self.context_config["forbid_creation_of"]:
+                if "*" in self.context_config[
+                    "forbid_creation_of"
+                ] and not target_i.startswith(TEMP_DATA_TYPE_PREFIX):
                     raise strax.DataNotAvailable(
                         f"{target_i} for {run_id} not found in any storage, and "
                         "your context specifies no new data can be created."
